@@ -387,6 +387,16 @@ func (p *Policer) processNodes(ctx context.Context, plc *processPlacementContext
 		p.log.Debug("some of the copies are stored on nodes under maintenance, save local copy",
 			zap.Int("count", uncheckedCopies))
 	}
+
+	if uncheckedCopies > 0 && plc.localNodeInContainer && !plc.needLocalCopy {
+		// The local node is listed by this rule behind the nodes that were
+		// enough to cover it, and some of those are maintenance ones nobody has
+		// heard from. Whatever has been started for the rule above (replication
+		// may fail), the local copy can be the only one.
+		plc.needLocalCopy = true
+		p.log.Debug("some of the copies are stored on nodes under maintenance, save local copy of the container node",
+			zap.Int("count", uncheckedCopies))
+	}
 }
 
 func (p *Policer) dropRedundantLocalObject(ctx context.Context, addr oid.Address, isEC bool) {
